@@ -35,6 +35,9 @@ def refix(text, ours):
     if "del peer_buffer, item" in ours:
         # repo fix 8feff75: the fetching tee peer drops its own reference to the item
         t = re.sub(r"del peer_buffer\n", "del peer_buffer, item\n", t)
+    if "not (self._target_key == state.current_key)" in ours:
+        # repo fix b69fc4c: a group ends where its key is no longer EQUAL
+        t = t.replace("self._target_key != state.current_key", "not (self._target_key == state.current_key)")
     if "is not sentinel and value != sentinel" in ours:
         t = re.sub(r"\b(value) != ((?:self\._)?sentinel)\b", r"\1 is not \2 and \1 != \2", t)
     return t
